@@ -1,4 +1,227 @@
 package main
 
-// tryReplay: confirm a refuted obligation on the real code (filled in per obligation class).
-func tryReplay(res *checkResult, o *Obligation) map[string]any { return nil }
+// Replay of solver counterexamples on the real code. For the obligation
+// classes whose inputs are plain scalars (layer A: node4 SWAR helpers, node16
+// search, numeric codecs) the model's input values are put into an in-package
+// Go test that is injected with `go test -overlay` (nothing is written to
+// /repo), calls the REAL function and checks the property clause with an
+// oracle written independently in Go. A failing test confirms the violation.
+// Other classes (node/tree states) are not replayed: their VIOLATION lines end
+// with no-failing-input-found and the replay file carries the model.
+
+import (
+	"fmt"
+	"os"
+	"os/exec"
+	"path/filepath"
+	"regexp"
+	"strconv"
+	"strings"
+	"time"
+)
+
+var bvValRe = regexp.MustCompile(`^#x([0-9a-fA-F]+)$|^#b([01]+)$`)
+
+func parseBV(s string) (uint64, bool) {
+	s = strings.TrimSpace(s)
+	if strings.HasPrefix(s, "#x") {
+		if len(s) > 18 {
+			return 0, false
+		}
+		v, err := strconv.ParseUint(s[2:], 16, 64)
+		return v, err == nil
+	}
+	if strings.HasPrefix(s, "#b") {
+		v, err := strconv.ParseUint(s[2:], 2, 64)
+		return v, err == nil
+	}
+	if strings.HasPrefix(s, "(_ bv") {
+		f := strings.Fields(strings.Trim(s, "()"))
+		if len(f) >= 2 {
+			v, err := strconv.ParseUint(strings.TrimPrefix(f[1], "bv"), 10, 64)
+			return v, err == nil
+		}
+	}
+	return 0, false
+}
+
+// modelValue finds the value of the symbol whose name starts with prefix (p.keys!12 ...).
+func modelValue(m map[string]string, prefix string) (uint64, bool) {
+	for k, v := range m {
+		if strings.HasPrefix(k, prefix+"!") {
+			return parseBV(v)
+		}
+	}
+	return 0, false
+}
+
+func tryReplay(res *checkResult, o *Obligation) map[string]any {
+	m := modelSummary(o.Model)
+	fn := o.Func
+	var body string
+	switch {
+	case fn == "searchNode4" || fn == "insertPosNode4":
+		keys, ok1 := modelValue(m, "p.keys")
+		b, ok2 := modelValue(m, "p.b")
+		if !ok1 || !ok2 {
+			return nil
+		}
+		cmp := "=="
+		if fn == "insertPosNode4" {
+			cmp = ">="
+		}
+		body = fmt.Sprintf(`
+	keys, b := uint32(%#x), byte(%#x)
+	want := -1
+	for i := 0; i < 4; i++ {
+		if byte(keys>>(8*i)) %s b {
+			want = i
+			break
+		}
+	}
+	if got := %s(keys, b); got != want {
+		t.Fatalf("%s(%%#x, %%#x) = %%d, scalar scan over the four lanes gives %%d", keys, b, got, want)
+	}`, keys, b, cmp, fn, fn)
+	case strings.HasPrefix(fn, "searchNode16") || strings.HasPrefix(fn, "insertPosNode16"):
+		name := strings.Fields(fn)[0]
+		n, ok1 := modelValue(m, "p.childrenLen")
+		b, ok2 := modelValue(m, "p.b")
+		var keysLit string
+		for k, v := range m {
+			if strings.HasPrefix(k, "asm.keys!") && strings.HasPrefix(v, "#x") && len(v) == 34 {
+				var bs []string
+				for i := 15; i >= 0; i-- {
+					bs = append(bs, "0x"+v[2+2*i:4+2*i])
+				}
+				keysLit = strings.Join(bs, ", ")
+			}
+		}
+		if !ok1 || !ok2 || keysLit == "" {
+			return nil
+		}
+		cmp := "=="
+		if name == "insertPosNode16" {
+			cmp = ">"
+		}
+		body = fmt.Sprintf(`
+	keys := [16]byte{%s}
+	n, b := uint8(%d), byte(%#x)
+	want := -1
+	for i := 0; i < int(n); i++ {
+		if keys[i] %s b {
+			want = i
+			break
+		}
+	}
+	if got := %s(&keys, n, b); got != want {
+		t.Fatalf("%s(%%v, %%d, %%#x) = %%d, scalar scan over the occupied slots gives %%d", keys, n, b, got, want)
+	}`, keysLit, n, b, cmp, name, name)
+	case strings.Contains(fn, "BinaryKey[") && strings.HasSuffix(fn, ".Transform"):
+		body = codecReplayBody(fn, m)
+	}
+	if body == "" {
+		return nil
+	}
+	src := "package art\n\nimport (\n\t\"bytes\"\n\t\"math\"\n\t\"testing\"\n)\n\nvar _ = bytes.Compare\nvar _ = math.NaN\n\nfunc TestVerifReplay(t *testing.T) {" + body + "\n}\n"
+	return runReplayTest(src, o.Name)
+}
+
+func codecReplayBody(fn string, m map[string]string) string {
+	// fn like (UnsignedBinaryKey[uint16]).Transform
+	i, j := strings.Index(fn, "["), strings.Index(fn, "]")
+	if i < 0 || j < i {
+		return ""
+	}
+	typ := fn[i+1 : j]
+	codec := strings.TrimPrefix(fn[:i], "(")
+	a, ok1 := modelValue(m, "p.k")
+	b, ok2 := modelValue(m, "p.b.k")
+	if !ok1 {
+		return ""
+	}
+	if !ok2 {
+		b = a
+	}
+	var mk, less, same string
+	switch {
+	case strings.HasPrefix(typ, "float32"):
+		mk = "func(u uint64) float32 { return math.Float32frombits(uint32(u)) }"
+	case strings.HasPrefix(typ, "float64"):
+		mk = "func(u uint64) float64 { return math.Float64frombits(u) }"
+	default:
+		mk = fmt.Sprintf("func(u uint64) %s { return %s(u) }", typ, typ)
+	}
+	if strings.HasPrefix(typ, "float") {
+		less = `func(x, y ` + typ + `) bool {
+		fx, fy := float64(x), float64(y)
+		switch {
+		case math.IsNaN(fx):
+			return !math.IsNaN(fy)
+		case math.IsNaN(fy):
+			return false
+		case fx == 0 && fy == 0:
+			return math.Signbit(fx) && !math.Signbit(fy)
+		}
+		return fx < fy
+	}`
+		same = `func(x, y ` + typ + `) bool {
+		fx, fy := float64(x), float64(y)
+		if math.IsNaN(fx) || math.IsNaN(fy) {
+			return math.IsNaN(fx) && math.IsNaN(fy)
+		}
+		return math.Float64bits(fx) == math.Float64bits(fy)
+	}`
+	} else {
+		less = "func(x, y " + typ + ") bool { return x < y }"
+		same = "func(x, y " + typ + ") bool { return x == y }"
+	}
+	return fmt.Sprintf(`
+	mk := %s
+	less := %s
+	same := %s
+	x, y := mk(%#x), mk(%#x)
+	var c %s[%s]
+	ex, _ := c.Transform(x)
+	ey, _ := c.Transform(y)
+	if (bytes.Compare(ex, ey) < 0) != less(x, y) {
+		t.Fatalf("order: x=%%v y=%%v enc(x)=%%x enc(y)=%%x", x, y, ex, ey)
+	}
+	if bytes.Equal(ex, ey) != same(x, y) {
+		t.Fatalf("injectivity: x=%%v y=%%v enc(x)=%%x enc(y)=%%x", x, y, ex, ey)
+	}
+	if r := c.Restore(ex); !same(r, x) {
+		t.Fatalf("round trip: x=%%v (bits %%#x) decodes to %%v", x, uint64(%#x), r)
+	}`, mk, less, same, a, b, codec, typ, a)
+}
+
+func runReplayTest(src, obName string) map[string]any {
+	dir := filepath.Join(verifDir(), ".work")
+	os.MkdirAll(dir, 0o755)
+	tf := filepath.Join(dir, "replay_"+sanitize(obName)+"_test.go")
+	if len(tf) > 200 {
+		tf = filepath.Join(dir, fmt.Sprintf("replay_%d_test.go", time.Now().UnixNano()))
+	}
+	os.WriteFile(tf, []byte(src), 0o644)
+	ov := filepath.Join(dir, "overlay.json")
+	target := filepath.Join(repoDir(), "zz_verif_replay_test.go")
+	os.WriteFile(ov, []byte(fmt.Sprintf(`{"Replace": {%q: %q}}`, target, tf)), 0o644)
+	cmd := exec.Command("go", "test", "-overlay", ov, "-vet=off", "-count=1", "-timeout", "60s", "-run", "^TestVerifReplay$", ".")
+	cmd.Dir = repoDir()
+	env := os.Environ()
+	var filtered []string
+	for _, e := range env {
+		if strings.HasPrefix(e, "GOSUMDB=") || strings.HasPrefix(e, "GOTOOLCHAIN=") || strings.HasPrefix(e, "GOFLAGS=") {
+			continue
+		}
+		filtered = append(filtered, e)
+	}
+	cmd.Env = append(filtered, "GOFLAGS=-mod=mod", "GOPROXY=off")
+	out, err := cmd.CombinedOutput()
+	confirmed := err != nil && strings.Contains(string(out), "--- FAIL")
+	o := string(out)
+	if len(o) > 4000 {
+		o = o[:4000]
+	}
+	return map[string]any{"test": src, "output": o, "confirmed": confirmed,
+		"how": "in-package test injected with go test -overlay; calls the real function with the model's inputs and checks the clause with an independent Go oracle"}
+}
